@@ -26,7 +26,7 @@ def obligations(repo):
         if k in NULL_CASES:
             d["LEX_COVER_NULL"] = 1
         obs.append(dict(id="C09.lex.tokenize." + nm, prop="C09", harness=LEX, entry="h_tokenize", annotate=LANN,
-                        include_repo=["", "src"], defines=d, enforce="tokenize", replace=["malloc"], loops=True,
+                        include_repo=["", "src"], defines=d, enforce="tokenize", replace=["malloc"] + (os.environ.get("RPX", "").split()), loops=True,
                         unwind=12, object_bits=9, backends=["cadical"], strength="X", functions=["tokenize"], timeout=900,
                         weight=10,
                         must_have=[r"tokenize\.postcondition", r"tokenize\.loop_invariant_step", r"tokenize\.loop_decreases",
